@@ -19,6 +19,7 @@ import (
 	"go/types"
 	"os"
 	"path/filepath"
+	"regexp"
 	"sort"
 	"strconv"
 	"strings"
@@ -128,6 +129,8 @@ func main() {
 		fmt.Fprintln(os.Stderr, err)
 		os.Exit(2)
 	}
+	// range-over-func (the map-iteration seam) needs language version 1.23
+	b = regexp.MustCompile(`(?m)^go 1\.(1[0-9]|2[0-2])(\.[0-9]+)?$`).ReplaceAll(b, []byte("go 1.23"))
 	b = append(b, []byte("\nrequire "+simrtPath+" v0.0.0\n\nreplace "+simrtPath+" => ../simrt\n")...)
 	os.WriteFile(gm, b, 0o644)
 	if *statsOut != "" {
@@ -170,11 +173,13 @@ type instr struct {
 	// go statement: shared between the spawning and the spawned goroutine
 	sharedLocals map[*types.Var]bool
 	// per-element tracking of slice accesses
-	elemModes map[*ast.IndexExpr]accessMode
-	elemSkip  map[*ast.IndexExpr]bool
-	twoValueRecv map[*ast.UnaryExpr]bool
-	goInfo       map[*ast.GoStmt]goHoist
-	sendAny      map[ast.Node]bool // send statements whose value must be converted to the interface element type
+	elemModes     map[*ast.IndexExpr]accessMode
+	elemSkip      map[*ast.IndexExpr]bool
+	twoValueRecv  map[*ast.UnaryExpr]bool
+	goInfo        map[*ast.GoStmt]goHoist
+	mapRange      map[*ast.RangeStmt]bool
+	mapKeysCall   map[*ast.CallExpr]bool
+	sendAny       map[ast.Node]bool             // send statements whose value must be converted to the interface element type
 	labeledSelect map[*ast.BlockStmt][]ast.Stmt // generated block -> hoists (label must move onto the switch)
 }
 
@@ -687,12 +692,21 @@ func (in *instr) file(f *ast.File) {
 				}
 			}
 		case *ast.CallExpr:
-			in.callExpr(c, n)
+			if in.mapKeysCall[n] {
+				st.Rewrites["reflect_map_keys"]++
+				c.Replace(in.call("MapKeysOf", n.Fun.(*ast.SelectorExpr).X))
+			} else {
+				in.callExpr(c, n)
+			}
 		case *ast.GoStmt:
 			in.goStmt(c, n)
 		case *ast.RangeStmt:
 			if in.isChan(n.X) || in.wasChanRange[n] {
 				in.rangeChan(c, n)
+			} else if in.mapRange[n] {
+				// the iteration order of a map is the simulator's choice
+				st.Rewrites["range_map"]++
+				n.X = in.call("MapSeq", n.X)
 			}
 		case *ast.SelectStmt:
 			in.selectStmt(c, n)
@@ -735,6 +749,27 @@ func (in *instr) file(f *ast.File) {
 		return true
 	}
 	in.analyseGo(f)
+	in.mapRange = map[*ast.RangeStmt]bool{}
+	in.mapKeysCall = map[*ast.CallExpr]bool{}
+	ast.Inspect(f, func(n ast.Node) bool {
+		switch x := n.(type) {
+		case *ast.RangeStmt:
+			if tv, ok := in.info.Types[x.X]; ok {
+				if _, isMap := tv.Type.Underlying().(*types.Map); isMap {
+					in.mapRange[x] = true
+				}
+			}
+		case *ast.CallExpr:
+			if se, ok := x.Fun.(*ast.SelectorExpr); ok && se.Sel.Name == "MapKeys" && len(x.Args) == 0 {
+				if tv, ok := in.info.Types[se.X]; ok {
+					if nt, ok := tv.Type.(*types.Named); ok && nt.Obj().Pkg() != nil && nt.Obj().Pkg().Path() == "reflect" && nt.Obj().Name() == "Value" {
+						in.mapKeysCall[x] = true
+					}
+				}
+			}
+		}
+		return true
+	})
 	// sends of a concrete value on a channel of interface type: the generic
 	// Send cannot infer one T for both operands
 	in.sendAny = map[ast.Node]bool{}
